@@ -37,7 +37,7 @@ extern "C" __attribute__((used, visibility("default"))) const char * __asan_defa
 }
 extern "C" __attribute__((used, visibility("default"))) const char * __ubsan_default_options()
 {
-	return "print_stacktrace=1:halt_on_error=1";
+	return "print_stacktrace=1:halt_on_error=1:exitcode=77";
 }
 #endif
 
@@ -87,6 +87,15 @@ inline void writeCrashLine(const char * kind, int sig)
 	const int n = std::snprintf(buf, sizeof(buf), "\nC {\"i\":%ld,\"kind\":\"%s\",\"sig\":%d}\n", workerState().currentIndex, kind, sig);
 	if(n > 0) { ssize_t r = write(1, buf, (size_t)n); (void)r; }
 }
+
+#if defined(SIM_WORKER_ASAN) && !defined(VERIF_SECONDARY_TU)
+// gcc links libubsan next to libasan, each with its own copy of the common runtime: the death callback registered below is only
+// known to libasan. libubsan calls this weak hook for every report, so an undefined-behaviour report names the run it happened in.
+extern "C" __attribute__((used, visibility("default"))) void __ubsan_on_report(void)
+{
+	sim::writeCrashLine("ubsan", 0);
+}
+#endif
 
 inline void crashSignalHandler(int sig)
 {
